@@ -189,7 +189,7 @@ Proof. intros I. apply t_pre. intros w. apply St_weaken. exact I. Qed.
 Lemma t_get_b0 ss E :
   tri (St ss (eq d0)) get_b (fun b w => b = b_init L C al src d0 /\ St ss (eq d0) w) E.
 Proof.
-  intros w HI. cbn. split; [|exact HI]. destruct HI as (h0 & h1 & h2 & h3 & h4 & h5 & h6 & h7).
+  clear HD. intros w HI. cbn. split; [|exact HI]. destruct HI as (h0 & h1 & h2 & h3 & h4 & h5 & h6 & h7).
   destruct (w_b w); cbn in *. unfold b_init. subst. reflexivity.
 Qed.
 Lemma t_get_b ss D E :
@@ -312,3 +312,276 @@ Proof.
   destruct (nth_error (s_keys st) _) eqn:E; [|discriminate]. intros H. injection H as _ <-.
   exact (nth_error_In _ _ E).
 Qed.
+
+(* ===================================================================== *)
+(* 5. srtp_protect_rtcp                                                   *)
+(* ===================================================================== *)
+Section RTCP_REF.
+Variables (L C : Z) (al : bool) (src d0 pkt : bytes).
+Hypothesis HL : 0 <= L < 9223372036854775808.
+Hypothesis HC : 0 <= C < 9223372036854775808.
+Hypothesis HD : C <= lenZ d0.
+(* the input block holds the packet (L octets) *)
+Hypothesis Hpkt : take (zn L) (if al then d0 else src) = pkt.
+Hypothesis HLp : lenZ pkt = L.
+
+Notation S := (St L C al src d0).
+
+Lemma in_slice off n : 0 <= off -> 0 <= n -> off + n <= L ->
+  slice (zn off) (zn n) (if al then d0 else src) = slice (zn off) (zn n) pkt.
+Proof. intros H1 H2 H3. rewrite <- Hpkt. symmetry. apply slice_take. unfold zn. lia. Qed.
+
+Lemma t_rd_src0 ss off n E :
+  0 <= off -> 0 <= n -> off + n <= L ->
+  tri (S ss (eq d0)) (rd_src off n) (fun d w => d = slice (zn off) (zn n) pkt /\ S ss (eq d0) w) E.
+Proof.
+  intros H1 H2 H3. eapply t_post; [apply t_rd_src; assumption|].
+  intros d w [(dd & Hdd & _ & Hd) Hw]. split; [rewrite Hd, <- Hdd; apply in_slice; assumption|exact Hw].
+Qed.
+
+(* the payload: encrypt (or copy) [8, 8+n) of the input into the output *)
+Lemma payload_step ss (conf : bool) cs n payload fs0 :
+  0 <= n -> 8 + n <= L -> 8 + n <= C -> lenZ payload = n ->
+  (al = false -> slice (zn 8) (zn n) src = payload) ->
+  Forall (away 8 n) fs0 ->
+  tri (S ss (facts_ok ((if al then [(8, payload)] else []) ++ fs0)))
+      (if conf then
+         d <- rd_src 8 n ;;
+         (let '(s, _, o) := cipher_encrypt cs d in
+          if negb (s =? st_ok) then exit_with st_cipher_fail else wr_dst 8 o)
+       else if al then ret tt
+       else (d <- rd_src 8 n ;; wr_dst 8 d))
+      (fun _ w => exists enc, rtcp_body cs conf payload = Some enc /\ lenZ enc = n /\ S ss (facts_ok ((8, enc) :: fs0)) w)
+      (fun s w => rtcp_body cs conf payload = None /\ s = st_cipher_fail /\ S ss Dany w).
+Proof.
+  intros Hn HnL HnC Hp Hsrc Haway.
+  assert (Hrd : forall dd, facts_ok ((if al then [(8, payload)] else []) ++ fs0) dd ->
+                           slice (zn 8) (zn n) (if al then dd else src) = payload).
+  { intros dd Hf. destruct al eqn:EA; [|auto].
+    replace (zn n) with (length payload) by (rewrite <- Hp; symmetry; apply zn_len).
+    apply (fact_get _ _ _ _ Hf). left; reflexivity. }
+  assert (Hsub : forall dd, facts_ok ((if al then [(8, payload)] else []) ++ fs0) dd -> facts_ok fs0 dd).
+  { intros dd Hf. apply (facts_sub _ _ _ Hf). destruct al; cbn; [apply incl_tl|]; apply incl_refl. }
+  unfold rtcp_body. destruct conf.
+  - eapply t_bind; [apply t_rd_src; lia|intros d]. apply t_pure; intros (dd & Hf & _ & ->). rewrite (Hrd dd Hf).
+    destruct (cipher_encrypt cs payload) as [[s c2] o] eqn:EE.
+    destruct (s =? st_ok) eqn:ES; cbn [negb].
+    + pose proof (cipher_encrypt_ok_length _ _ _ _ _ EE ES) as Lo.
+      assert (Lo' : lenZ o = n) by (unfold lenZ in *; lia).
+      eapply t_post; [eapply t_weaken; [|apply (t_wr_facts L C al src d0 HD ss fs0 8 o)]|].
+      * intros dd' _ Hf'. exact (Hsub dd' Hf').
+      * lia.
+      * lia.
+      * rewrite Lo'. exact Haway.
+      * intros ? w Hw. exists o. split; [reflexivity|]. split; [exact Lo'|exact Hw].
+    + apply t_exit. intros w Hw. split; [reflexivity|]. split; [reflexivity|]. exact (St_any _ _ _ _ _ _ _ _ Hw).
+  - destruct al eqn:EA.
+    + apply t_ret. intros w Hw. exists payload. split; [reflexivity|]. split; [exact Hp|exact Hw].
+    + eapply t_bind; [apply t_rd_src; lia|intros d]. apply t_pure; intros (dd & Hf & _ & ->).
+      rewrite (Hsrc eq_refl).
+      eapply t_post; [apply (t_wr_facts L C false src d0 HD ss fs0 8 payload)|].
+      * lia.
+      * lia.
+      * rewrite Hp. exact Haway.
+      * intros ? w Hw. exists payload. split; [reflexivity|]. split; [exact Hp|exact Hw].
+Qed.
+
+Lemma hdr_len : 8 <= L -> lenZ (take 8 pkt) = 8.
+Proof. intros H. unfold lenZ in *. rewrite take_length. lia. Qed.
+Lemma pay_len : 8 <= L -> lenZ (drop 8 pkt) = L - 8.
+Proof. intros H. unfold lenZ in *. rewrite drop_length. lia. Qed.
+Lemma pkt_pay : 8 <= L -> slice (zn 8) (zn (L - 8)) pkt = drop 8 pkt.
+Proof. intros H. apply slice_to_end. unfold lenZ, zn in *. lia. Qed.
+
+Lemma St_exit ss D w : S ss D w -> w_s w = ss /\ b_src (w_b w) = src /\ b_oob (w_b w) = false.
+Proof. intros (h0 & h1 & h2 & h3 & h4 & h5 & h6 & h7). auto. Qed.
+
+Lemma check_st_ok : check_st st_ok = ret tt.
+Proof. reflexivity. Qed.
+Lemma check_st_key_expired : check_st st_key_expired = exit_with st_key_expired.
+Proof. reflexivity. Qed.
+
+Lemma Hpkt_b : take (zn L) (cur_src (b_init L C al src d0)) = pkt.
+Proof. exact Hpkt. Qed.
+Ltac norm_b :=
+  change (b_len (b_init L C al src d0)) with L;
+  change (b_cap (b_init L C al src d0)) with C;
+  change (b_alias (b_init L C al src d0)) with al;
+  rewrite ?Hpkt_b.
+
+Ltac away_tac := repeat (apply Forall_cons || apply Forall_nil); unfold away; cbn [fst snd]; lia.
+
+Variable ss0 : session.
+Variable st0 : stream.
+Hypothesis Hget : list_get (ss_list ss0) (be32 pkt 4) = Some st0.
+Hypothesis Hwf : stream_wf st0.
+
+Definition ProtQ i (l : Z) (w : world) : Prop :=
+  exists wire, protect_rtcp_fun ss0 i C pkt = (w_s w, inl wire) /\ l = lenZ wire /\
+               take (zn l) (b_dst (w_b w)) = wire /\ b_src (w_b w) = src /\ b_oob (w_b w) = false.
+Definition ProtE i (s : Z) (w : world) : Prop :=
+  protect_rtcp_fun ss0 i C pkt = (w_s w, inr s) /\ b_src (w_b w) = src /\ b_oob (w_b w) = false.
+
+Lemma prot_exit ss D i s w : S ss D w -> protect_rtcp_fun ss0 i C pkt = (ss, inr s) -> ProtE i s w.
+Proof. intros Hw Hs. destruct (St_exit _ _ _ Hw) as (e1 & e2 & e3). unfold ProtE. rewrite e1. auto. Qed.
+
+Lemma prot_fun_eq i st ki k :
+  (L <? 8) = false -> st = dir_stream st0 dir_srtp_sender_c -> sender_key_st st i = inl (ki, k) ->
+  (C <? L + 4 + s_mki_size st + ak_tag (k_rtcp_a k)) = false ->
+  (rtcp_ceiling_c <=? wstart (s_rdb st)) = false ->
+  protect_rtcp_fun ss0 i C pkt =
+  let ss2 := sess_put (dir_session ss0 (be32 pkt 4) st0 dir_srtp_sender_c) (be32 pkt 4)
+               (set_rdb st {| wstart := u32 (wstart (s_rdb st) + 1); bitmask := bitmask (s_rdb st) |}) in
+  match rtcp_wire st k (u32 (wstart (s_rdb st) + 1)) pkt with
+  | None => (ss2, inr st_cipher_fail)
+  | Some wire => (ss2, inl wire)
+  end.
+Proof.
+  intros E0 -> EK E1 ER. unfold protect_rtcp_fun. cbv zeta. rewrite HLp, E0, Hget, EK. cbv beta iota.
+  rewrite E1, ER. reflexivity.
+Qed.
+
+Lemma rtcp_wire_eq st k seq ps cs1 ks :
+  cipher_output (cipher_start (k_rtcp_c k) (rtcp_iv (ck_alg (k_rtcp_c k)) (be32 pkt 4) seq)) (ak_prefix (k_rtcp_a k)) = (ps, cs1, ks) ->
+  rtcp_wire st k seq pkt =
+  if negb (ps =? st_ok) then None else
+  match rtcp_body cs1 (rtcp_conf st) (drop 8 pkt) with
+  | None => None
+  | Some enc =>
+    let m := take 8 pkt ++ enc ++ rtcp_trailer (rtcp_conf st) seq in
+    let tag := auth_compute (k_rtcp_a k) m in
+    Some (m ++ (if s_use_mki st then k_mki k else []) ++ tag ++ drop (length tag) ks)
+  end.
+Proof. intros EP. unfold rtcp_wire. cbv zeta. rewrite EP. reflexivity. Qed.
+
+Lemma protect_rtcp_tri i : tri (S ss0 (eq d0)) (protect_rtcp i) (ProtQ i) (ProtE i).
+Proof.
+  unfold protect_rtcp.
+  eapply t_bind; [apply t_get_b0|intros b]. apply t_pure; intros ->.
+  cbv beta zeta. norm_b.
+  change octets_in_rtcp_header_c with 8. change trailer_len with 4.
+  destruct (L <? 8) eqn:E0.
+  { apply t_bind_exit. intros w Hw. apply (prot_exit _ _ _ _ _ Hw).
+    unfold protect_rtcp_fun. cbv zeta. rewrite HLp, E0. reflexivity. }
+  apply t_bind_ret. pose proof E0 as E0'. apply Z.ltb_ge in E0'.
+  pose proof (hdr_len E0') as LH. pose proof (pay_len E0') as LP.
+  eapply t_bind; [eapply t_lookup_existing; exact Hget|intros r]. apply t_pure; intros ->.
+  eapply t_bind; [eapply t_check_direction; exact Hget|intros ?].
+  eapply t_bind; [apply t_get_stream_list; apply dir_session_get; exact Hget|intros st]. apply t_pure; intros Est.
+  set (ss1 := dir_session ss0 (be32 pkt 4) st0 dir_srtp_sender_c).
+  assert (Wst : stream_wf st) by (rewrite Est; exact (stream_wf_cfg _ _ (dir_stream_cfg st0 _) Hwf)).
+  rewrite keys_by_index_eq. destruct (sender_key_st st i) as [[ki k]|e] eqn:EK.
+  2:{ apply t_bind_exit. intros w Hw. apply (prot_exit _ _ _ _ _ Hw).
+      unfold protect_rtcp_fun. cbv zeta. rewrite HLp, E0, Hget, <- Est, EK. reflexivity. }
+  apply t_bind_ret. cbv beta iota.
+  pose proof (sender_key_st_In _ _ _ _ EK) as Hk.
+  pose proof (stream_wf_key _ _ Wst Hk) as (MK & _ & TA).
+  destruct Wst as (M & U & _). rewrite max_mki_value in M.
+  pose proof (akey_prefix_le _ TA) as PL. pose proof TA as [T KP]. rewrite max_tag_value in T.
+  destruct (C <? L + 4 + s_mki_size st + ak_tag (k_rtcp_a k)) eqn:E1.
+  { apply t_bind_exit. intros w Hw. apply (prot_exit _ _ _ _ _ Hw).
+    unfold protect_rtcp_fun. cbv zeta. rewrite HLp, E0, Hget, <- Est, EK. cbv beta iota. rewrite E1. reflexivity. }
+  apply t_bind_ret. pose proof E1 as E1'. apply Z.ltb_ge in E1'.
+  set (P := if al then [(8, drop 8 pkt)] else []).
+  (* header *)
+  apply t_bind with (R := fun _ => S ss1 (facts_ok ((0, take 8 pkt) :: P))).
+  { subst P. pose proof (in_slice 0 8) as I1. pose proof (in_slice 8 (L - 8)) as I2.
+    pose proof (pkt_pay E0') as I3. destruct al eqn:EA; cbv iota in I1, I2.
+    - apply t_ret. intros w Hw. eapply St_weaken; [|exact Hw]. intros dd _ Hdd. rewrite <- Hdd.
+      constructor; [|constructor; [|constructor]]; (split; [cbn [fst]; lia|cbn [fst snd]]).
+      + replace (length (take 8 pkt)) with (zn 8) by (unfold lenZ, zn in *; lia). apply I1; lia.
+      + replace (length (drop 8 pkt)) with (zn (L - 8)) by (unfold lenZ, zn in *; lia).
+        rewrite I2 by lia. exact I3.
+    - eapply t_bind; [apply t_rd_src; lia|intros h]. apply t_pure; intros (dd & _ & _ & ->).
+      rewrite I1 by lia.
+      apply t_weaken with (D' := facts_ok []); [intros; constructor|].
+      change (slice (zn 0) (zn 8) pkt) with (take 8 pkt).
+      apply t_wr_facts; [exact HD|lia|lia|constructor]. }
+  intros ?.
+  (* MKI *)
+  set (mki := if s_use_mki st then k_mki k else []).
+  assert (LM : lenZ mki = s_mki_size st).
+  { subst mki. destruct (s_use_mki st); [exact MK|]. rewrite (U eq_refl). reflexivity. }
+  apply t_bind with (R := fun _ => S ss1 (facts_ok ((L + 4, mki) :: (0, take 8 pkt) :: P))).
+  { subst mki. destruct (s_use_mki st) eqn:EU.
+    - apply t_wr_facts; [exact HD|lia|lia|]. subst P. destruct al; away_tac.
+    - apply t_ret. intros w Hw. eapply St_weaken; [|exact Hw]. intros dd _ Hf. apply facts_nil_fact; [lia|exact Hf]. }
+  intros ?.
+  (* index *)
+  unfold rdb_incr. destruct (rtcp_ceiling_c <=? wstart (s_rdb st)) eqn:ER; cbv beta iota.
+  { rewrite check_st_key_expired. apply t_bind_exit. intros w Hw. apply (prot_exit _ _ _ _ _ Hw).
+    unfold protect_rtcp_fun. cbv zeta. rewrite HLp, E0, Hget, <- Est, EK. cbv beta iota. rewrite E1, ER. reflexivity. }
+  rewrite check_st_ok. apply t_bind_ret.
+  pose proof (prot_fun_eq i st ki k E0 Est EK E1 ER) as SPEC. cbv zeta in SPEC.
+  set (seq := u32 (wstart (s_rdb st) + 1)) in *.
+  set (rb := {| wstart := seq; bitmask := bitmask (s_rdb st) |}) in *.
+  change (wstart rb) with seq.
+  eapply t_bind; [apply t_put_stream_list|intros ?].
+  set (ss2 := sess_put ss1 (be32 pkt 4) (set_rdb st rb)) in *.
+  change (negb (Z.land (s_rtcp_serv st) sec_serv_conf_c =? 0)) with (rtcp_conf st).
+  change (be_bytes 4 (Z.to_N ((if rtcp_conf st then SRTCP_E_BIT_c else 0) + seq))) with (rtcp_trailer (rtcp_conf st) seq).
+  set (tr := rtcp_trailer (rtcp_conf st) seq) in *.
+  assert (LT : lenZ tr = 4) by (subst tr; unfold rtcp_trailer; rewrite lenZ_be_bytes; reflexivity).
+  eapply t_bind; [apply t_wr_facts; [exact HD|lia|lia|subst P; destruct al; away_tac]|intros ?].
+  eapply t_bind; [apply t_log_encrypt_iv|intros ?].
+  destruct (cipher_output (cipher_start (k_rtcp_c k) (rtcp_iv (ck_alg (k_rtcp_c k)) (be32 pkt 4) seq)) (ak_prefix (k_rtcp_a k)))
+    as [[ps cs1] ks] eqn:EP.
+  rewrite (rtcp_wire_eq st k seq ps cs1 ks EP) in SPEC.
+  destruct (ps =? st_ok) eqn:EPS; cbn [negb] in *.
+  2:{ apply t_bind_exit. intros w Hw. exact (prot_exit _ _ _ _ _ Hw SPEC). }
+  assert (LK : lenZ ks = ak_prefix (k_rtcp_a k)).
+  { pose proof (cipher_output_ok_length _ _ _ _ _ EP EPS) as H. unfold lenZ, zn in *. lia. }
+  eapply t_bind; [apply t_wr_facts; [exact HD|lia|lia|subst P; destruct al; away_tac]|intros ?].
+  (* payload *)
+  eapply t_bind2;
+    [eapply t_weaken;
+       [|apply (payload_step ss2 (rtcp_conf st) cs1 (L - 8) (drop 8 pkt)
+                  [(L + 4 + s_mki_size st, ks); (L, tr); (L + 4, mki); (0, take 8 pkt)])]| |intros ?].
+  { intros dd _ Hf. apply (facts_sub _ _ _ Hf). subst P. destruct al; cbn; intros f Hin; cbn in *; tauto. }
+  { lia. } { lia. } { lia. } { exact LP. }
+  { intros EA. pose proof (in_slice 8 (L - 8)) as I2. rewrite EA in I2. rewrite I2 by lia. apply pkt_pay. exact E0'. }
+  { away_tac. }
+  { intros s w (EB & -> & Hw). rewrite EB in SPEC. exact (prot_exit _ _ _ _ _ Hw SPEC). }
+  apply t_ex; intros enc. apply t_pure; intros EB. apply t_pure; intros LE.
+  rewrite EB in SPEC. cbv zeta in SPEC.
+  (* tag *)
+  eapply t_bind; [apply t_rd_dst; lia|intros m]. apply t_pure; intros (dd & Hf & Hdl & ->).
+  assert (Hm : slice (zn 0) (zn (L + 4)) dd = take 8 pkt ++ enc ++ tr).
+  { replace (zn (L + 4)) with (length (concat [take 8 pkt; enc; tr]))
+      by (cbn [concat]; rewrite !app_length; cbn [length]; unfold lenZ, zn in *; lia).
+    rewrite chain_slice; [cbn [concat]; rewrite app_nil_r; reflexivity|lia|].
+    cbn [chain]. rewrite LH, LE. replace (0 + 8 + (L - 8)) with L by lia.
+    repeat split; apply (fact_get _ _ _ _ Hf); cbn; tauto. }
+  rewrite Hm. set (tag := auth_compute (k_rtcp_a k) (take 8 pkt ++ enc ++ tr)) in *.
+  assert (KT : (lenZ tag = ak_tag (k_rtcp_a k) /\ ak_prefix (k_rtcp_a k) = 0) \/
+               (lenZ tag = 0 /\ ak_prefix (k_rtcp_a k) = ak_tag (k_rtcp_a k))).
+  { subst tag. rewrite auth_compute_length by lia. destruct (ak_kind (k_rtcp_a k) =? SRTP_HMAC_SHA1_c); auto. }
+  eapply t_bind; [apply t_wr_facts; [exact HD|lia|lia|destruct KT as [[K1 K2]|[K1 K2]]; away_tac]|intros ?].
+  apply t_ret. intros w Hw. destruct Hw as (h0 & h1 & h2 & h3 & h4 & h5 & h6 & h7).
+  exists ((take 8 pkt ++ enc ++ tr) ++ mki ++ tag ++ drop (length tag) ks).
+  rewrite h0. split; [exact SPEC|].
+  assert (LW : lenZ ((take 8 pkt ++ enc ++ tr) ++ mki ++ tag ++ drop (length tag) ks)
+               = L + 4 + s_mki_size st + ak_tag (k_rtcp_a k)).
+  { unfold lenZ in *. rewrite !app_length, drop_length. destruct KT as [[K1 K2]|[K1 K2]]; lia. }
+  split; [rewrite LW, u64_small by lia; lia|].
+  split; [|auto].
+  rewrite u64_small by lia.
+  replace (8 + (L - 8) + ak_tag (k_rtcp_a k) + 4 + s_mki_size st) with
+     (lenZ ((take 8 pkt ++ enc ++ tr) ++ mki ++ tag ++ drop (length tag) ks)) by lia.
+  rewrite zn_len, <- slice_0.
+  replace ((take 8 pkt ++ enc ++ tr) ++ mki ++ tag ++ drop (length tag) ks)
+    with (concat [take 8 pkt; enc; tr; mki; tag; drop (length tag) ks])
+    by (cbn [concat]; rewrite app_nil_r, <- !app_assoc; reflexivity).
+  apply (chain_slice _ 0); [lia|].
+  cbn [chain]. rewrite LH, LE, LT, LM.
+  replace (0 + 8 + (L - 8)) with L by lia.
+  assert (G : forall o v, In (o, v) [(L + 4 + s_mki_size st, tag); (8, enc); (L + 4 + s_mki_size st, ks); (L, tr); (L + 4, mki); (0, take 8 pkt)] ->
+                     slice (zn o) (length v) (b_dst (w_b w)) = v) by (intros o v; apply (fact_get _ _ _ _ h7)).
+  repeat split; try (apply G; cbn; tauto).
+  destruct KT as [[K1 K2]|[K1 K2]].
+  - assert (ks = []) as -> by (apply length0_nil; unfold lenZ in *; lia).
+    destruct (length tag); reflexivity.
+  - assert (tag = []) as Et by (apply length0_nil; unfold lenZ in *; lia).
+    rewrite Et. cbn [length drop]. rewrite Z.add_0_r. apply G. cbn; tauto.
+Qed.
+End RTCP_REF.
